@@ -48,12 +48,14 @@ func (h handle) wake() {
 func (h handle) park() {
 	var b [1]byte
 	for {
-		_, _, e := syscall.Syscall(syscall.SYS_READ, uintptr(h.rfd), uintptr(unsafe.Pointer(&b[0])), 1)
+		n, _, e := syscall.Syscall(syscall.SYS_READ, uintptr(h.rfd), uintptr(unsafe.Pointer(&b[0])), 1)
 		if e == syscall.EINTR {
 			continue
 		}
-		if e != 0 {
-			panic(e)
+		if e != 0 || n == 0 {
+			// the pipe was closed by the Begin of a later execution: this goroutine was leaked by a
+			// deadlocked execution and must never run again
+			select {}
 		}
 		return
 	}
